@@ -3,5 +3,5 @@
 # apply a patch to the tree named by VERIF_REPO (default /repo), run the quick check, undo.
 P="$1"; PATCH="$2"; R="${VERIF_REPO:-/repo}"
 git -C "$R" apply "$PATCH" || { echo "patch does not apply"; exit 3; }
-VERIF_REPO="$R" python3 /verif/tools/check.py "$P" --tier quick 2>&1 | grep -E "VIOLATION|KNOWN-FINDING|\[verif\]" | head -8
+VERIF_EVIDENCE_DIR=/var/tmp/verif_side_evidence VERIF_REPO="$R" python3 /verif/tools/check.py "$P" --tier quick 2>&1 | grep -E "VIOLATION|KNOWN-FINDING|\[verif\]" | head -8
 git -C "$R" checkout -- .
